@@ -204,6 +204,9 @@ func (h *History) Observe(rec *sim.ScanRecord) *ScanCtx {
 	// failures of node reads/writes or removal calls (no lost reply, nothing wrong with lists, describes or resizes)
 	sc.UpExact = !rec.Crashed && rec.Panic == nil && !rec.Fatal
 	for _, e := range rec.Events {
+		if e.API == sim.AwsDescASG && e.Note != "" {
+			sc.UpExact = false // the refresh left a group out: its cached description is a scan old
+		}
 		if !e.Injected {
 			continue
 		}
